@@ -3,6 +3,7 @@ package checks
 import (
 	"context"
 	"fmt"
+	"math"
 	"math/rand"
 	"strings"
 	"time"
@@ -88,6 +89,17 @@ func c10Run(r *rt.Rec, rng *rand.Rand, n int) {
 		cs := gen.RandomPattern(rng, ps, all, 1+rng.Intn(2))
 		mand := len(cs)
 		nOpt := 1 + rng.Intn(3)
+		if rng.Intn(5) == 0 {
+			// the first OPTIONAL clause takes the limits of its predicate bound
+			// from time bindings of the mandatory part ("id"@[?lo,?hi]): every
+			// row then looks up its own window
+			if cs2, ok := gen.AddBoundAlias(rng, cs); ok {
+				cs = cs2
+				mand = len(cs) - 1
+				cs[mand].Optional = true
+				nOpt--
+			}
+		}
 		for k := 0; k < nOpt; k++ {
 			sh := ps[rng.Intn(len(ps))]
 			if rng.Intn(8) == 0 {
@@ -228,8 +240,31 @@ func c10SharedAnchor(r *rt.Rec, rng *rand.Rand, n int) {
 			opt.P = bq.B("?p2")
 			opt.O = bq.N(gen.VNodes[rng.Intn(len(gen.VNodes))])
 		}
+		class := "optional:shared-anchor"
+		if i%4 == 3 {
+			// the shared binding holds a literal instead, unusual floats included
+			fl := []float64{math.NaN(), math.Inf(1), math.Copysign(0, -1), 0, 1.5}
+			for k := 0; k < 6; k++ {
+				l := gen.MustLitF(fl[rng.Intn(len(fl))])
+				t := gen.MustTriple(gen.VNodes[rng.Intn(3)], gen.MustImm([]string{"p", "q"}[rng.Intn(2)]), triple.NewLiteralObject(l))
+				if rng.Intn(3) == 0 {
+					t = gen.MustTriple(gen.VNodes[rng.Intn(3)], gen.MustTemp("q", gen.Times[rng.Intn(3)]), triple.NewLiteralObject(l))
+				}
+				if k := cv.Triple(t); !seen[k] {
+					seen[k] = true
+					ts = append(ts, t)
+				}
+			}
+			data = bq.Data{"?g1": ts}
+			first = bq.Clause{S: bq.B("?s"), P: bq.B("?p"), O: bq.B("?o")}
+			opt = bq.Clause{Optional: true, S: bq.B("?s2"), P: bq.B("?p2"), O: bq.B("?o")}
+			if rng.Intn(2) == 0 {
+				opt.P = bq.PB("q", "?t2")
+			}
+			class = "optional:shared-literal"
+		}
 		q := gen.SelectAll([]bq.Clause{first, opt}, []string{"?g1"})
-		if rows := compareSelect(ctx, r, q, data, "optional:shared-anchor", []int{0, 2}[rng.Intn(2)]); rows > 0 {
+		if rows := compareSelect(ctx, r, q, data, class, []int{0, 2}[rng.Intn(2)]); rows > 0 {
 			r.Nontrivial(q.Text() + "|" + strings.Join(bq.DataStrings(data)["?g1"], ";"))
 		}
 	}
